@@ -11,6 +11,11 @@ MODULE = "Alpen.Props.C14"
 OUTCOMES = ["alreadyPresent", "noRoute", "transportFailed", "digestMismatch", "success", "dbErrorEarly", "dbErrorLate"]
 
 
+def under_min(node):
+    """the property's "below its minimum free space", from the recorded figures (unknown free space is not "below")"""
+    return node.avail_gb is not None and node.min_avail_gb is not None and node.avail_gb < node.min_avail_gb
+
+
 def at_limit(db, node):
     """the property's "at its size limit", computed from the index by the harness (not by the code under test): registered sizes
     of the copies recorded present on the node add up to max_total_gb or more"""
@@ -152,7 +157,7 @@ def run(ctx):
                         rq, f, size = sc.new_request(how)
                         tid += 1
                         node = db.StorageNode.get(id=sc.dst.id)
-                        um = node.under_min
+                        um = under_min(node)
                         om = at_limit(db, node)
                         qs = sc.q.qsize
                         e.set_host("h1")
@@ -319,7 +324,7 @@ def stage_transport_group(ctx, drv, nseq):
                         recs = []
                         for un in uns:
                             nd = un.db
-                            recs.append((nd.id, None if nd.avail_gb is None else round(nd.avail_gb * 2 ** 20), bool(nd.under_min),
+                            recs.append((nd.id, None if nd.avail_gb is None else round(nd.avail_gb * 2 ** 20), under_min(nd),
                                          at_limit(db, nd), bav[nd.root], rb[nd.id]))
                         picked = []
                         for un in uns:
